@@ -52,26 +52,7 @@ def sides(ck, an):
         except AnalysisError:
             ok = False
     ck.check(ok, "SIGN", "S3.book-liquidation-side", fl.f.short, fl.f.loc, "liq_price: longs at the bid, shorts at the ask", "liq_price is not acq_price of the opposite sign", construct="liq_price")
-    # the valuation selector agrees with liq_price
-    fa = an.fa("Broker.holdings_values")
-    sel = [d for d in fa.rd.defs if d.kind == "assign" and isinstance(d.value, ast.IfExp)]
-    found = False
-    for d in sel:
-        loops = [p for p in parents(d.ast) if isinstance(p, ast.For)]
-        if not loops or not isinstance(loops[0].target, ast.Tuple):
-            continue
-        qvar = loops[0].target.elts[1].id
-        try:
-            tab = sign_table_expr(fa.sym, d.value, fa.sym.canon(ast.Name(id=qvar, ctx=ast.Load()), d.node), d.node)
-        except AnalysisError:
-            continue
-        found = True
-        ck.check(tab["pos"].endswith(".bid_price") and tab["neg"].endswith(".ask_price"), "SIGN", "S3.valuation-side", fa.f.short, fa.loc(d.ast),
-                 "valuation: longs at the bid, shorts at the ask", f"valuation side table: long -> {tab['pos']}, short -> {tab['neg']}", construct=ast.unparse(d.ast))
-    if not found:
-        k = [fa.sym.canon(d.value, d.node) for d in fa.rd.defs if d.kind == "assign" and "price" in d.var]
-        ck.check(any(".liq_price(" in x or ".acq_price(-" in x for x in k), "SIGN", "S3.valuation-side", fa.f.short, fa.f.loc, "valuation uses the book's liquidation price",
-                 f"valuation price is {k}", construct="liq_price = ...")
+    # (the valuation selector of holdings_values is decided with the valuation formulas: S6.value-*)
 
 
 def cash_at_par(ck, an):
